@@ -350,11 +350,20 @@ def register(cat, simple, binary, with_scalar, _perm, _dims_subset, gen_ttm, run
             st["rank"] = c.obj(k).ncomponents
             st["init"] = "ktensor"
             st["guess_operands"] = [1]
+        n = len(sh)
+        st["dimorder"] = _perm(c.g, n) if c.g.random() < 0.3 else None
+        st["optdims"] = sorted(c.g.sample(range(n), c.g.randint(1, n - 1))) if c.g.random() < 0.35 else None
+        st["fixsigns"] = c.g.random() < 0.8
         return st
 
     def run_cp_als(eng, ops, st):
         init = ops[1] if st["init"] == "ktensor" else st["init"]
-        return ttb.cp_als(ops[0], st["rank"], init=init, maxiters=st["maxiters"], printitn=0)
+        kw = {}
+        if st.get("dimorder") is not None:
+            kw["dimorder"] = st["dimorder"]
+        if st.get("optdims") is not None:
+            kw["optdims"] = st["optdims"]
+        return ttb.cp_als(ops[0], st["rank"], init=init, maxiters=st["maxiters"], printitn=0, fixsigns=st.get("fixsigns", True), **kw)
 
     op("cp_als", ("T", "S"), gen_cp_als, run_cp_als, weight=1.5)
 
@@ -401,14 +410,15 @@ def register(cat, simple, binary, with_scalar, _perm, _dims_subset, gen_ttm, run
         if x.norm() == 0 or x.ndims < 2:
             return None
         ranks = [c.g.randint(1, s) for s in x.shape]
+        dimorder = _perm(c.g, x.ndims) if c.g.random() < 0.3 else None
         if c.g.random() < 0.5:
-            return {"operands": [r], "ranks": ranks, "init": "random"}
+            return {"operands": [r], "ranks": ranks, "init": "random", "dimorder": dimorder}
         ids = [c.fresh(np.asfortranarray(rand_array(c.g, (s, rk)))) for s, rk in zip(x.shape, ranks)]
-        return {"operands": [r] + ids, "ranks": ranks, "init": "list", "guess_operands": list(range(1, 1 + len(ids)))}
+        return {"operands": [r] + ids, "ranks": ranks, "init": "list", "guess_operands": list(range(1, 1 + len(ids))), "dimorder": dimorder}
 
     def run_tucker_als(eng, ops, st):
         init = list(ops[1:]) if st["init"] == "list" else "random"
-        T, Uinit, info = ttb.tucker_als(ops[0], st["ranks"], maxiters=2, init=init, printitn=0)
+        T, Uinit, info = ttb.tucker_als(ops[0], st["ranks"], maxiters=2, init=init, printitn=0, dimorder=st.get("dimorder"))
         return (T, [u for u in Uinit if u is not None], info)
 
     op("tucker_als", "T", gen_tucker_als, run_tucker_als, weight=1.0)
